@@ -14,7 +14,8 @@ EXPLANATION = (
     "fallback; (R4) the 101 response carries the same constants and the RFC 6455 accept hash "
     "(SHA-1 over key then GUID, base64).")
 EXPLANATION_ADDED = 'R3 requires the routed value to be the raw request path (a trimmed / transformed copy is a different literal).'
-EXPLANATION = EXPLANATION + " Added while testing against seeded changes: " + EXPLANATION_ADDED
+EXPLANATION_ADDED2 = ' R1 also decides the converse for the PSK (upgrade reachable with PSK configured + equal header, and with no PSK configured).'
+EXPLANATION = EXPLANATION + " Added while testing against seeded changes: " + EXPLANATION_ADDED + EXPLANATION_ADDED2
 ASSUMPTIONS = ["http::HeaderValue equality is byte-exact; HeaderMap::get returns the first value of the named header",
                "sha1/base64 crates implement SHA-1 and standard base64"]
 NOT_DECIDED = "byte-equality of fallback responses with unknown-path responses (hyper / backend behaviour)"
